@@ -7,7 +7,8 @@ COQ_IMPORTS = "From SV Require Import Model.Subscription."
 READY = True
 XCHECK = 12
 NP, SPP = 4, 4
-RULE = ("scenario = initial on-disk logs of 4 partitions (transactions of 1..3 events over <= 3 streams each, a confirmed prefix followed by a mix, a quarter with the watermark inside a transaction) "
+RULE = ("dup_ack scenarios (6 quick / 24 thorough): the window is filled, one acknowledgement, then the SAME acknowledgement repeated 2-3 times (observed for 25 ms each): nothing may be sent. "
+        "scenario = initial on-disk logs of 4 partitions (transactions of 1..3 events over <= 3 streams each, a confirmed prefix followed by a mix, a quarter with the watermark inside a transaction) "
         "+ one subscription (kind cycles all-partitions / one partition / several partitions / one stream / several streams; start Latest, AllPartitions(n)/AllStreams(n), explicit map with or without "
         "fallback, positions 0 / watermark / watermark-1 / end / beyond / random; window cycles 1, 2, 10, sometimes 100) + a schedule of 3..20 steps before/after Subscribe drawn from "
         "{direct unconfirmed append, ConfirmTransaction (watermark moves, nothing broadcast), ExecuteTransaction (append+confirm+broadcast), ack, release one history pause point, release all, flush} "
